@@ -98,15 +98,21 @@ def _is(a, b):
     return a is b
 
 
+MASKED = [False]
+
+
 def run(c, col):
-    """c: dict(prog=..., order=index of the permutation of SAMPLES[, same_ploidy=True: two samples share a ploidy and differ in everything else])"""
+    """c: dict(prog=..., order=index of the permutation of SAMPLES[, same_ploidy=True: two samples share a ploidy and differ in everything else]
+    [, masked=True (call-pedigree): the locus has its reference allele masked])"""
     global PLOIDY
     saved = PLOIDY
     PLOIDY = {"s0": 2, "s1": 4, "s2": 4} if c.get("same_ploidy") else {"s0": 2, "s1": 3, "s2": 4}
+    MASKED[0] = bool(c.get("masked"))
     try:
         return _run(c, col)
     finally:
         PLOIDY = saved
+        MASKED[0] = False
 
 
 def _run(c, col):
@@ -236,27 +242,32 @@ def _run(c, col):
             mod.minimum_error_correction = lambda calls, haps: rnp.zeros(1)
 
             def make_trace(kw, f):
-                class PT:
+                # the REAL trace class over a padded array (-1 beyond each sample's ploidy, as the sampler stores it); alleles are
+                # indices into the haplotypes handed to the sampler (the unmasked subset when the reference is masked)
+                steps, maxp = 8, max(PLOIDY[s] for s in samples)
+                g = rnp.full((1, steps, len(samples), maxp), -1, dtype=rnp.int16)
+                for i, s in enumerate(samples):
+                    g[0, :, i, : PLOIDY[s]] = 0
+                    g[0, : int(round(gpm[s] * steps)), i, PLOIDY[s] - 1] = 1
+                tr = pcl.PedigreeAllelesMultiTrace(g, n_allele=len(kw["haplotypes"]))
+                cls_ = type(tr)
+
+                class PT(cls_):
                     def burn(self, n):
                         log.append(("burn", None, n))
                         return self
 
-                    def incongruence(self, **k):
+                    def incongruence(self, *a, **k):
                         log.append(("ped-incongruence", k))
                         return rnp.array([0.125 * (i + 1) for i in range(len(samples))])
 
-                    def individual(self, i):
-                        s = samples[i]
-                        P = PLOIDY[s]
-                        steps = 8
-                        g = rnp.zeros((1, steps, P), dtype=rnp.int8)
-                        g[0, : int(round(gpm[s] * steps)), -1] = 1
-                        return cc.GenotypeAllelesMultiTrace(g, rnp.full((1, steps), rnp.nan), len(kw["haplotypes"]))
-
-                return PT()
+                return PT(g, n_allele=len(kw["haplotypes"]))
 
             mod.PedigreeCallingMCMC = rec_class(orig(pcl, "PedigreeCallingMCMC"), make_trace, log)
             locus = _Locus()
+            if c.get("masked"):  # reference masked: the sampler sees alleles 1 and 2 only and its trace is relabelled afterwards
+                locus.mask_reference_allele = True
+                locus.frequencies = rnp.array([0.0, 0.5, 0.5])
 
         mod.qual_of_prob = lambda p: 0  # Phred scaling (log10) is formatting, not wiring
         if hasattr(mod, "natural_log_to_log10"):
@@ -427,7 +438,8 @@ def verify(prog_name, F, reads, counts, gpm, log, samples, out, gts, eqr, num):
         for k, v in dict(steps=OPTS["mcmc_steps"], chains=OPTS["mcmc_chains"], random_seed=OPTS["random_seed"], annealing=OPTS["mcmc_burn"]).items():
             if kw.get(k) != v:
                 return "PedigreeCallingMCMC option %s=%r (program value %r)" % (k, kw.get(k), v), claims
-        if not _arr_eq(kw.get("haplotypes"), [[0], [1], [2]]) or not _arr_eq(kw.get("frequencies"), [0.5, 0.25, 0.25]):
+        want_h, want_f = ([[1], [2]], [0.5, 0.5]) if MASKED[0] else ([[0], [1], [2]], [0.5, 0.25, 0.25])
+        if not _arr_eq(kw.get("haplotypes"), want_h) or not _arr_eq(kw.get("frequencies"), want_f):
             return "PedigreeCallingMCMC haplotypes/frequencies %r / %r" % (kw.get("haplotypes"), kw.get("frequencies")), claims
         sr, sc = rnp.asarray(f["sample_reads"], dtype=float), rnp.asarray(f["sample_read_counts"])
         for i, s in enumerate(samples):
@@ -443,6 +455,11 @@ def verify(prog_name, F, reads, counts, gpm, log, samples, out, gts, eqr, num):
             return "column of %s reports GPM=%r, its own trace says %r" % (s, None if out.get(s) is None else num(out[s]), gpm[s]), claims
         if gts.get(s) is None or len(gts[s]) != PLOIDY[s]:
             return "column of %s has a GT of %r entries (ploidy %d)" % (s, None if gts.get(s) is None else len(gts[s]), PLOIDY[s]), claims
+        if MASKED[0]:
+            # the trace holds indices into the unmasked subset (0 -> allele 1, 1 -> allele 2): P-1 copies of the first and at most one of the second
+            g = sorted(int(a) for a in gts[s])
+            if g[:-1] != [1] * (PLOIDY[s] - 1) or g[-1] not in (1, 2):
+                return "column of %s reports GT %s; its own trace (relabelled to the unmasked alleles 1, 2) only visits %s and %s" % (s, g, [1] * PLOIDY[s], [1] * (PLOIDY[s] - 1) + [2]), claims
     return None, claims
 
 
@@ -450,7 +467,7 @@ def verify(prog_name, F, reads, counts, gpm, log, samples, out, gts, eqr, num):
 # (used by C01 / C02 / C18: the kernels those checks verify are only the program's sampler if fit() hands them the object's
 # own parameters)
 
-CLASSES = ["denovo", "calling-gibbs", "calling-mh", "pedigree-gibbs", "pedigree-mh"]
+CLASSES = ["denovo", "calling-gibbs", "calling-mh", "pedigree-gibbs", "pedigree-mh", "pedigree-gibbs-flat"]  # -flat: frequencies left at the default (None = flat prior)
 
 
 def _np_seed_shim(mod, log):
@@ -536,8 +553,9 @@ def run_class(c, col):
         pc.seed_numba = lambda s: log.append(("seed_numba", s))
         _np_seed_shim(pc, log)
         Fs = [E.SymReal(F), E.SymReal(E.fresh_real(ctx, "F1", 0, 1)), E.SymReal(E.fresh_real(ctx, "F2", 0, 1))]
-        obj = pc.PedigreeCallingMCMC(sample_inbreeding=Fs, haplotypes=haps, frequencies=freqs, steps=5, annealing=3, chains=2, random_seed=11,
-                                     step_type="Gibbs" if which.endswith("gibbs") else "Metropolis-Hastings", swap_parental_alleles=True, **kw)
+        flat = which.endswith("-flat")
+        obj = pc.PedigreeCallingMCMC(sample_inbreeding=Fs, haplotypes=haps, steps=5, annealing=3, chains=2, random_seed=11,
+                                     step_type="Gibbs" if "gibbs" in which else "Metropolis-Hastings", swap_parental_alleles=True, **(kw if flat else dict(kw, frequencies=freqs)))
         obj.fit(sreads, scounts)
         return F, log, dict(kw, sreads=sreads, scounts=scounts, haps=haps, freqs=freqs, Fs=Fs)
 
@@ -615,11 +633,12 @@ def verify_class(which, F, log, x, eqr, num):
                     return "mcmc_sampler %s is not the object's array" % k, claims
             if b["sample_read_dists"] is not x["sreads"] or b["sample_read_counts"] is not x["scounts"] or b["haplotypes"] is not x["haps"]:
                 return "mcmc_sampler does not receive fit()'s reads / counts / the object's haplotypes", claims
-            if b["n_steps"] != 5 or b["annealing"] != 3 or b["step_type"] != (0 if which.endswith("gibbs") else 1) or b["swap_parental_alleles"] is not True:
+            if b["n_steps"] != 5 or b["annealing"] != 3 or b["step_type"] != (0 if "gibbs" in which else 1) or b["swap_parental_alleles"] is not True:
                 return "mcmc_sampler n_steps / annealing / step_type / swap = %r / %r / %r / %r" % (b["n_steps"], b["annealing"], b["step_type"], b["swap_parental_alleles"]), claims
             lf = [num(v) for v in b["log_frequencies"]]
-            if any(abs(a - math.log(f)) > 1e-9 for a, f in zip(lf, [0.5, 0.25, 0.25])) or len(lf) != 3:
-                return "mcmc_sampler log_frequencies %r are not the logs of the object's frequencies" % (lf,), claims
+            want_f = [1 / 3] * 3 if which.endswith("-flat") else [0.5, 0.25, 0.25]  # no frequencies given: the flat prior 1/n (a proper distribution)
+            if any(abs(a - math.log(f)) > 1e-9 for a, f in zip(lf, want_f)) or len(lf) != 3:
+                return "mcmc_sampler log_frequencies %r are not the logs of the object's frequencies %r" % (lf, want_f), claims
             g0 = rnp.asarray(b["sample_genotypes"])
             if g0.shape != (3, 4) or [int(v) for v in (g0 >= 0).sum(axis=1)] != [2, 4, 3]:
                 return "initial genotypes are not padded per sample ploidy: %r" % (g0.tolist(),), claims
@@ -838,7 +857,7 @@ def run_refit(c, col):
 
             def make():
                 return pc.PedigreeCallingMCMC(sample_inbreeding=Fs, haplotypes=haps, frequencies=freqs, steps=5, annealing=3, chains=2, random_seed=11,
-                                              step_type="Gibbs" if which.endswith("gibbs") else "Metropolis-Hastings", swap_parental_alleles=True, **kw)
+                                              step_type="Gibbs" if "gibbs" in which else "Metropolis-Hastings", swap_parental_alleles=True, **kw)
 
             A = (rnp.full((3, 2, 2, 2), 0.25), rnp.array([[1, 2], [3, 0], [4, 5]]))
             B = (rnp.full((3, 3, 2, 2), 0.125), rnp.array([[1, 1, 2], [3, 3, 0], [4, 4, 5]]))
